@@ -309,7 +309,7 @@ SKELETONS = [
     "{{ a[b] }}{{ a[b][c] }}{{ a.first }}{{ a.last }}{{ a.size }}{{ b.size }}",
     "{{ a[b].c }}{{ c[a] }}{{ a['k'] }}{{ a[0] }}{{ a[-1] }}",
     "{{ a if b else c }}{{ a | default: b if c else a | append: b }}",
-    "{{ a or b }}{{ a and b }}{{ not a }}",
+    "{% if a or b %}o{% endif %}{% if a and b %}n{% endif %}{% if not a %}x{% endif %}{{ a if b or c else b }}",
     "{% assign z = a | plus: b %}{{ z }}{% capture y %}{{ a }}{{ b }}{% endcapture %}{{ y | size }}",
     "{% increment a %}{% decrement a %}{{ a }}",
     "{% with x: a, y: b %}{{ x }}{{ y }}{% endwith %}",
@@ -332,6 +332,17 @@ SKELETONS = [
     "{{ a | date: b }}{{ b | date: '%Y' }}{{ 'now' | date: b }}",
     "{% assign x = a | split: b %}{{ x | join: c }}{{ x | first }}",
     "{{ a | replace: b, c }}{{ a | remove: b }}{{ a | append: b | prepend: c }}",
+    # template strings (interpolated expressions) in every position that takes an expression
+    "{% cycle 'x${a}', b %}{% cycle \"${b | upcase}\", 'y${c}' %}{% cycle g: 'p${b}', c %}{% cycle 'x${a}', b %}",
+    "{% case 'k${a}' %}{% when 'k${b}', \"k${c}\" %}w{% else %}e{% endcase %}",
+    "{% for x in 'a${b}', \"${c}\" %}{{ x }}{% endfor %}{% with v: '${a}-${b}' %}{{ v }}{% endwith %}",
+    "{% include 'p' with '${a}' as x %}{% render 'p', x: \"<${b}>\" %}{% include 'p', x: '${c}' %}",
+    "{% macro m x: 'd${a}' %}{{ x }}{% endmacro %}{% call m %}{% call m '${b}${c}' %}",
+    "{% translate x: '${a}', count: b %}T {{ x }}{% endtranslate %}{{ '${a}' | t: y: '${b}' }}",
+    "{% if '${a}' == \"${b}\" or '${c}' contains '${a}' %}t{% endif %}{{ '${a}' if '${b}' else '${c}' }}",
+    "{{ a | where: 'k', '${b}' | where: x => x.k == '${c}' | join: '${a}' }}{{ a[\"${b}\"] }}",
+    "{% assign z = '${a}${b}' | append: \"${c}\" %}{% capture y %}${a}{{ '${z}' }}{% endcapture %}{{ y }}{% echo '${a | default: \"${b}\"}' %}",
+    "{% for x in a limit: '${b}' offset: \"${c}\" %}{{ x }}{% endfor %}{% unless '${a}' %}u{% endunless %}",
 ]
 SKELETON_PARTIALS = {
     "p": "[{{ x }}{{ p }}]",
@@ -403,6 +414,7 @@ def floors(tier: str) -> dict[str, int]:
         "ok": 10_000 * k,
         "shorthand_config_runs": 10_000 * k,
         "depth_limit_renders": 900,
+        "skeleton_programs_that_parse": 380,
     }
 
 
@@ -497,6 +509,12 @@ def _confused(r: Runner, spec: dict[str, Any], ctx: Ctx) -> None:
     for pi, p in enumerate(progs):
         if pi % spec["n"] != spec["i"]:
             continue
+        try:
+            r.env_for(tpls).from_string(p)
+            ctx.count("skeleton_programs_that_parse")
+        except Exception:  # noqa: BLE001
+            ctx.count("skeleton_programs_rejected_at_parse")
+            ctx.note(f"skeleton rejected at parse time: {p[:80]}")
         # ranges are lazy; materialising an astronomically long one is a separate,
         # explicitly probed mechanism (see _range_probe), not part of this sweep
         pool = RANGE_SAFE if ".." in p else HOSTILE
